@@ -127,6 +127,9 @@ Step1 ==
                    Check(eng.onShutdown = 0, "OnShutdownOnce", eng.onShutdown + 1, Final(viols, "OnShutdown")))
          \* C19: once Run has returned the handle reports the shutdown (whatever ended the engine)
          [] e.ev = "AfterRun" -> Same(Check(e.validate = "ErrEngineInShutdown" /\ e.count = -1, "StoppedHandleReportsShutdown", <<e.validate, e.count>>, viols))
+         \* C19: Register / Enroll / Dial deliver exactly one result, an error or a connection that can be used
+         [] e.ev = "RegResult" -> Same(Check(e.err # "nil" \/ (e.fd >= 0 /\ e.usable), "RegisterYieldsUsableOrError", <<e.api, e.err, e.fd, e.usable, e.injected>>, viols))
+         [] e.ev = "RegNoResult" -> Same(Check(FALSE, "RegisterYieldsOneResult", <<e.api, e.injected>>, viols))
          [] e.ev \in {"Tick", "TickEnd"} -> Same(Final(viols, e.ev))
          [] e.ev = "RunRet" ->
               LET open == {c \in DOMAIN lc : lc[c].life = "open"}
